@@ -303,5 +303,5 @@ PINNED = [
 ]
 SUBS = {
     "matrices": Sub(judge=judge_matrix, enum=enum_matrices, min_decided=300),
-    "encoding": Sub(judge=judge_encoding, gen=gen_encoding, quick=2500, thorough=150_000, min_decided=500),
+    "encoding": Sub(judge=judge_encoding, gen=gen_encoding, quick=8000, thorough=150_000, min_decided=500),
 }
